@@ -1,0 +1,80 @@
+//go:build verif
+
+package semver
+
+import (
+	"fmt"
+	"strings"
+)
+
+// VerifDump renders the internal representation of a parsed Version as an
+// s-expression for an external verification harness. It is only available
+// with the "verif" build tag.
+//
+//	(sys userNumCount isPrerelease str (num...) (pre...) build ext)
+//
+// ext is (0) when absent, (1 (sep str int)...) for Maven,
+// (2) or (2 (epoch pre preNum post postNum dev devNum local)) for PyPI and
+// (3 (str int)...) for RubyGems. Strings are written as xHEX.
+func VerifDump(v *Version) string {
+	if v == nil {
+		return "(nil)"
+	}
+	var b strings.Builder
+	hex := func(s string) string { return fmt.Sprintf("x%x", s) }
+	bit := func(x bool) int {
+		if x {
+			return 1
+		}
+		return 0
+	}
+	fmt.Fprintf(&b, "(%d %d %d %s (", int(v.sys), v.userNumCount, bit(v.isPrerelease), hex(v.str))
+	for i, n := range v.num {
+		if i > 0 {
+			b.WriteByte(' ')
+		}
+		fmt.Fprintf(&b, "%d", int64(n))
+	}
+	b.WriteString(") (")
+	for i, p := range v.pre {
+		if i > 0 {
+			b.WriteByte(' ')
+		}
+		b.WriteString(hex(p))
+	}
+	fmt.Fprintf(&b, ") %s ", hex(v.build))
+	switch e := v.ext.(type) {
+	case nil:
+		b.WriteString("(0)")
+	case *mavenExtension:
+		b.WriteString("(1")
+		for _, el := range e.elems {
+			fmt.Fprintf(&b, " (%d %s %d)", el.sep, hex(el.str), el.int)
+		}
+		b.WriteString(")")
+	case *pep440Extension:
+		if e.ext == nil {
+			b.WriteString("(2)")
+		} else {
+			x := e.ext
+			fmt.Fprintf(&b, "(2 (%d %s %d %d %d %d %d %s))", x.epoch, hex(x.pre), x.preNum,
+				bit(x.postPresent), x.postNum, bit(x.devPresent), x.devNum, hex(x.local))
+		}
+	case *gemExtension:
+		b.WriteString("(3")
+		for _, el := range e.elems {
+			fmt.Fprintf(&b, " (%s %d)", hex(el.str), el.int)
+		}
+		b.WriteString(")")
+	default:
+		b.WriteString("(9)")
+	}
+	b.WriteString(")")
+	return b.String()
+}
+
+// VerifParseInternal is System.parse (the parser used for span bounds, which
+// may accept the infinity sign).
+func VerifParseInternal(sys System, str string, allowInfinity bool) (*Version, error) {
+	return sys.parse(str, allowInfinity)
+}
